@@ -10,13 +10,13 @@ using namespace net;
 static unsigned mask_for(const std::string &prop)
 {
   if (prop == "C07")
-    return O_N1 | O_N2 | O_N3 | O_N4 | O_X;
+    return O_N1 | O_N2 | O_N3 | O_N4 | O_N10 | O_X;
   if (prop == "C08")
-    return O_N5_LRA | O_N5_DL | O_N5_OV | O_N1 | O_N9_DL | O_X;
+    return O_N5_LRA | O_N5_DL | O_N5_OV | O_N1 | O_N9_DL | O_N10 | O_X;
   if (prop == "C09")
-    return O_N6 | O_N4_LRA | O_N2 | O_X;
+    return O_N6 | O_N4_LRA | O_N2 | O_N10 | O_X;
   if (prop == "C10")
-    return O_N5_DL | O_N7 | O_N4_DL | O_N2 | O_N9_DL | O_X;
+    return O_N5_DL | O_N7 | O_N4_DL | O_N2 | O_N9_DL | O_N10 | O_X;
   if (prop == "C11")
     return O_N8_LRA | O_N1 | O_N2 | O_N3 | O_N6 | O_X;
   if (prop == "C12")
